@@ -332,6 +332,10 @@ func TestC07(t *testing.T) {
 
 func init() {
 	registerReplay("C06", func(raw json.RawMessage) ([]Discrepancy, error) {
+		var dc c06DecCase
+		if err := json.Unmarshal(raw, &dc); err == nil && dc.Req.Name != nil {
+			return c06DecodeExec(&dc.Req), nil
+		}
 		var c mkCase
 		if err := json.Unmarshal(raw, &c); err != nil {
 			return nil, err
